@@ -1480,10 +1480,12 @@ public:
             ctx_.enqueue(this, strptr_.flip(bkt[i], bktsize), depth_);
         }
 
-        this->substep_notify_done(); // release anonymous subjob handle
-
         if (!strptr_.with_lcp)
             bkt_[0].destroy();
+
+        // release anonymous subjob handle: this may delete the step object,
+        // do not touch any member afterwards.
+        this->substep_notify_done();
     }
 
     /*------------------------------------------------------------------------*/
